@@ -624,6 +624,8 @@ pub fn judge(chain: &crate::chain::Chain, twin: &Store, native: &Store, version:
                 Ok(nb) => {
                     if (nb.acc_base, nb.acc_quote, nb.acc_fee) != sums {
                         out.v("C15", "C15/converted-accumulations-differ-from-log-sums".into(), format!("log sums {sums:?}, converted {:?}", (nb.acc_base, nb.acc_quote, nb.acc_fee)), doc());
+                        // C14 "preserves the book": what remains of a bid is part of the book
+                        out.v("C14", "C14/book-not-preserved/bid-remaining-amounts-changed".into(), format!("log sums {sums:?}, after migration {:?}", (nb.acc_base, nb.acc_quote, nb.acc_fee)), doc());
                     }
                     let same = |f: &str| old.get(f).map(|v| v.to_string());
                     let newv: Value = serde_json::from_slice(y).unwrap_or(Value::Null);
